@@ -4,6 +4,8 @@ import (
 	"bytes"
 	"context"
 	"fmt"
+	"google.golang.org/grpc/codes"
+	"google.golang.org/grpc/status"
 	"runtime/debug"
 	"sort"
 	"strconv"
@@ -41,6 +43,10 @@ type Runner struct {
 	discards     *discardReader
 	discardsSeen float64
 	corruptions  int // detections so far
+	// an armed I/O fault of the data device: the ioCount-th next read ("r") or write ("w") fails once
+	ioKind  string
+	ioCount int
+	ioFired bool
 }
 
 func (r *Runner) oracle(prop, what, detail string) {
@@ -205,7 +211,15 @@ func (r *Runner) afterPutStart(op *pendingOp, size int, e event) {
 			reply := r.m(begin, "-")
 			if reply == "ok" || reply == "" {
 				r.m(fmt.Sprintf("write %d 0 %s", op.id, bytesLine(r.ACValue(op.obj, op.ver))), "ok")
-				r.m(fmt.Sprintf("fput.end %d %d 1", op.id, r.flatKey(op.obj)), e.reply)
+				copied, impl := 1, e.reply
+				if r.ioFired {
+					r.ioFired = false
+					op.copied, op.ioFailed, copied = false, true, 0
+					if impl != "ok" {
+						impl = "err copy"
+					}
+				}
+				r.m(fmt.Sprintf("fput.end %d %d %d", op.id, r.flatKey(op.obj), copied), impl)
 			} else if reply != e.reply {
 				r.m("# put result", e.reply)
 			}
@@ -243,8 +257,15 @@ func (r *Runner) stepOp(id int) {
 	if op.next < len(op.chunks) {
 		chunk = op.chunks[op.next]
 	}
+	r.ioFired = false
 	op.resume <- struct{}{}
 	e := r.wait()
+	if r.ioFired {
+		// the device refused a write of this upload's copy: the upload must fail like one whose source failed
+		r.ioFired = false
+		op.copied = false
+		op.ioFailed = true
+	}
 	if len(chunk) > 0 && op.hasTick {
 		r.m(fmt.Sprintf("write %d %d %s", op.id, op.written, bytesLine(chunk)), "ok")
 	}
@@ -286,7 +307,9 @@ func (r *Runner) finishPut(op *pendingOp, reply string) {
 		}
 	}
 	if reply == "ok" {
-		if !op.copied {
+		if op.ioFailed {
+			r.oracle("C01", "an upload whose device write failed was acknowledged", fmt.Sprintf("put of object %d", op.obj))
+		} else if !op.copied {
 			r.oracle("C01", "an upload whose data does not match its digest or whose source failed was acknowledged",
 				fmt.Sprintf("put of object %d acknowledged", op.obj))
 		}
@@ -380,7 +403,27 @@ func (r *Runner) get(obj int, mode string) {
 	r.nextOp++
 	writesBefore, newsBefore, discardsBefore := r.devWrites(), r.st.Alloc.News.Load(), r.discards.total()
 	stored := r.hier() && r.storedUnderPrefix(obj)
+	r.ioFired = false
 	kind, data := consumeMode(r.st.BA.Get(context.Background(), r.Digest(obj)), mode, int(r.Digest(obj).GetSizeBytes()))
+	if r.ioFired {
+		// a device read or write failed during this read: no data may be served; a refresh in progress is abandoned
+		r.ioFired = false
+		if kind == "data" {
+			r.oracle("C01", "a read during which the device failed returned data", fmt.Sprintf("Get of object %d", obj))
+		}
+		var reply string
+		if r.hier() {
+			ck, lks := r.hierKeys(obj)
+			reply = r.m(fmt.Sprintf("hget.begin %d %d %s", id, ck, joinInts(lks)), "-")
+		} else {
+			reply = r.m(fmt.Sprintf("fget.begin %d %d", id, r.flatKey(obj)), "-")
+		}
+		if reply == "refresh" {
+			r.m(fmt.Sprintf("abort %d", id), "ok")
+		}
+		r.state()
+		return
+	}
 	if stored && kind == "not-found" {
 		r.oracle("C10", "an object stored under a component-wise prefix of the reader's instance name was not found",
 			fmt.Sprintf("Get of object %d (instance %q)", obj, r.objs[obj].Instance))
@@ -722,6 +765,22 @@ func RunCase(model *hx.Model, dr *discardReader, name string, script []string) (
 		return r
 	}
 	r.st = NewStore(cfg)
+	if r.st.Dev != nil {
+		fault := func(kind string) error {
+			if r.ioKind != kind {
+				return nil
+			}
+			if r.ioCount > 0 {
+				r.ioCount--
+				return nil
+			}
+			r.ioKind = ""
+			r.ioFired = true
+			return status.Error(codes.Internal, "injected device "+kind+" failure")
+		}
+		r.st.Dev.FailWrite = func(int64, int) error { return fault("w") }
+		r.st.Dev.FailRead = func(int64, int) error { return fault("r") }
+	}
 	r.discardsSeen = dr.total()
 	r.m(cfg.InitLine(), "ok")
 	defer func() {
@@ -794,15 +853,26 @@ func RunCase(model *hx.Model, dr *discardReader, name string, script []string) (
 				}
 			}
 			if len(os) > 0 {
+				r.ioKind = "" // device faults are only injected into uploads and single reads
 				r.drainComposites()
 				r.findMissing(os)
 			}
+		case "ioerr": // ioerr <r|w> <k>: the k-th next data device read / write fails once
+			compPending := false
+			for _, p := range r.pending {
+				compPending = compPending || p.kind == "comp"
+			}
+			if r.st.Dev != nil && len(w) == 3 && (w[1] == "r" || w[1] == "w") && !compPending {
+				r.ioKind, r.ioCount = w[1], n(2)
+			}
 		case "corrupt":
+			r.ioKind = ""
 			if okObj(n(1)) {
 				r.drainComposites()
 				r.corrupt(n(1))
 			}
 		case "comp": // comp <op> <parent> <childIdx>
+			r.ioKind = ""
 			if okObj(n(2)) && r.pending[n(1)] == nil && n(1) < 1000 {
 				r.drainComposites()
 				r.startComp(n(1), n(2), n(3))
